@@ -310,7 +310,7 @@ func runC15(c *Ctx) {
 					okNo = false
 				}
 			}
-			if ret, ok := in.(*ssa.Return); ok && len(ret.Results) == 1 && !isNilConst(unspill(ret, 0)) {
+			if ret, ok := in.(*ssa.Return); ok && isReturn(in) && len(ret.Results) == 1 && !isNilConst(unspill(ret, 0)) {
 				okNo = false
 			}
 		})
